@@ -285,13 +285,13 @@ Lemma Qn_nonneg n : 0 <= Qn n.
 Proof. unfold Qn. change 0 with (inject_Z 0). rewrite <- Zle_Qle. lia. Qed.
 
 Section RunFor.
-  Variables (cost : nat -> Q) (cmin b start stop : Q).
+  Variables (w : nat) (cost : nat -> Q) (cmin b start stop : Q).
   Hypothesis Hcmin : 0 < cmin.
   Hypothesis Hcost : forall i, cmin <= cost i.
   Hypothesis Hb : 0 <= b.
 
-  Notation next := (rf_next true cost b start).
-  Notation iter := (fun j st => rf_iter j true cost b start st).
+  Notation next := (rf_next true w cost b start).
+  Notation iter := (fun j st => rf_iter j true w cost b start st).
 
   Lemma batch_cost_nonneg k : forall from, 0 <= batch_cost cost from k.
   Proof.
@@ -340,7 +340,7 @@ Section RunFor.
   Lemma rf_run_spec N : forall st, (1 <= rf_interval st)%nat ->
     stop - rf_now st <= Qn N * cmin ->
     exists k, (k <= N)%nat /\
-      rf_run N true cost b start stop st = Some (map (fun j => iter j st) (seq 0 (S k))) /\
+      rf_run N true w cost b start stop st = Some (map (fun j => iter j st) (seq 0 (S k))) /\
       (forall j, (j < k)%nat ->
          rf_now (iter j st) < stop /\
          (rf_steps (iter j st) + 1 <= rf_steps (iter (S j) st))%nat /\
@@ -392,7 +392,7 @@ Section RunFor.
 
   Lemma run_for_progress st : (1 <= rf_interval st)%nat ->
     exists N k,
-      rf_run N true cost b start stop st = Some (map (fun j => iter j st) (seq 0 (S k))) /\
+      rf_run N true w cost b start stop st = Some (map (fun j => iter j st) (seq 0 (S k))) /\
       (forall j, (j < k)%nat ->
          rf_now (iter j st) < stop /\
          (rf_steps (iter j st) + 1 <= rf_steps (iter (S j) st))%nat /\
@@ -405,18 +405,24 @@ Section RunFor.
 
   (* more fuel never changes the answer *)
   Lemma rf_run_fuel_mono N : forall st tr M, (N <= M)%nat ->
-    rf_run N true cost b start stop st = Some tr ->
-    rf_run M true cost b start stop st = Some tr.
+    rf_run N true w cost b start stop st = Some tr ->
+    rf_run M true w cost b start stop st = Some tr.
   Proof.
     induction N as [|N IH]; intros st tr M HM Hrun.
     - simpl in Hrun. destruct (Qle_bool stop (rf_now st)) eqn:Hd; [|discriminate].
       destruct M; simpl; rewrite Hd; exact Hrun.
     - destruct M as [|M]; [lia|]. simpl in *.
       destruct (Qle_bool stop (rf_now st)); [exact Hrun|].
-      destruct (rf_run N true cost b start stop (next st)) as [tr'|] eqn:Hr; [|discriminate].
+      destruct (rf_run N true w cost b start stop (next st)) as [tr'|] eqn:Hr; [|discriminate].
       rewrite (IH _ tr' M); [exact Hrun|lia|exact Hr].
   Qed.
 End RunFor.
+
+Lemma rf_run_S f r w cost b start stop st :
+  rf_run (S f) r w cost b start stop st =
+  if Qle_bool stop (rf_now st) then Some [st]
+  else option_map (cons st) (rf_run f r w cost b start stop (rf_next r w cost b start st)).
+Proof. reflexivity. Qed.
 
 (* ---- the pinned loop: update_interval = int(steps / elapsed) reaches 0 *)
 Definition two_seconds (i : nat) : Q := 2.
@@ -425,27 +431,27 @@ Definition two_seconds (i : nat) : Q := 2.
    budget: after the first 20 steps (40 s) the interval is 0, the state no longer
    changes and the loop never ends *)
 Lemma run_for_stalls_refuted :
-  let st1 := rf_next false two_seconds 0 0 (rf_init 0) in
+  let st1 := rf_next false 1 two_seconds 0 0 (rf_init 0) in
   rf_steps st1 = 20%nat /\ rf_now st1 == 40 /\ rf_interval st1 = 0%nat /\
-  rf_next false two_seconds 0 0 st1 = st1 /\
-  forall fuel, rf_run fuel false two_seconds 0 0 60 (rf_init 0) = None.
+  rf_next false 1 two_seconds 0 0 st1 = st1 /\
+  forall fuel, rf_run fuel false 1 two_seconds 0 0 60 (rf_init 0) = None.
 Proof.
   cbv zeta.
-  assert (Hfix : rf_next false two_seconds 0 0 (rf_next false two_seconds 0 0 (rf_init 0))
-                 = rf_next false two_seconds 0 0 (rf_init 0)) by (vm_compute; reflexivity).
+  assert (Hfix : rf_next false 1 two_seconds 0 0 (rf_next false 1 two_seconds 0 0 (rf_init 0))
+                 = rf_next false 1 two_seconds 0 0 (rf_init 0)) by (vm_compute; reflexivity).
   split; [vm_compute; reflexivity|]. split; [vm_compute; reflexivity|].
   split; [vm_compute; reflexivity|]. split; [exact Hfix|].
   assert (Hloop : forall fuel,
-    rf_run fuel false two_seconds 0 0 60 (rf_next false two_seconds 0 0 (rf_init 0)) = None).
+    rf_run fuel false 1 two_seconds 0 0 60 (rf_next false 1 two_seconds 0 0 (rf_init 0)) = None).
   { induction fuel as [|f IH].
     - vm_compute. reflexivity.
-    - simpl rf_run.
-      replace (Qle_bool 60 (rf_now (rf_next false two_seconds 0 0 (rf_init 0)))) with false
+    - rewrite rf_run_S.
+      replace (Qle_bool 60 (rf_now (rf_next false 1 two_seconds 0 0 (rf_init 0)))) with false
         by (vm_compute; reflexivity).
       rewrite Hfix, IH. reflexivity. }
   intros [|f].
   - vm_compute. reflexivity.
-  - simpl rf_run. replace (Qle_bool 60 (rf_now (rf_init 0))) with false by (vm_compute; reflexivity).
+  - rewrite rf_run_S. replace (Qle_bool 60 (rf_now (rf_init 0))) with false by (vm_compute; reflexivity).
     rewrite Hloop. reflexivity.
 Qed.
 
@@ -453,13 +459,13 @@ Qed.
    does end, but after the first 20 steps it only spins -- 39 further passes
    without a single step, 20 steps in a budget that has room for 30 *)
 Lemma run_for_idles_refuted :
-  exists tr, rf_run 100 false two_seconds (1 # 2) 0 60 (rf_init 0) = Some tr /\
+  exists tr, rf_run 100 false 1 two_seconds (1 # 2) 0 60 (rf_init 0) = Some tr /\
     length tr = 41%nat /\ rf_steps (last tr (rf_init 0)) = 20%nat /\
     rf_interval (nth 1 tr (rf_init 0)) = 0%nat.
 Proof. eexists. split; [vm_compute; reflexivity|]. vm_compute. repeat split. Qed.
 
 (* the repaired loop on the same inputs: 30 steps, finished at the deadline *)
 Lemma run_for_repaired_example :
-  exists tr, rf_run 100 true two_seconds 0 0 60 (rf_init 0) = Some tr /\
+  exists tr, rf_run 100 true 1 two_seconds 0 0 60 (rf_init 0) = Some tr /\
     rf_steps (last tr (rf_init 0)) = 30%nat /\ rf_now (last tr (rf_init 0)) == 60.
 Proof. eexists. split; [vm_compute; reflexivity|]. vm_compute. split; reflexivity. Qed.
